@@ -12,6 +12,20 @@ Specification-level definitions for the round-trip theorems of C01/C02:
 -/
 namespace Capella.Xml
 
+/-! ## Structural equality (for the driver; `Elem` is a nested inductive) -/
+
+mutual
+def Elem.beq : Elem → Elem → Bool
+  | .mk t1 n1 a1 x1 l1 k1, .mk t2 n2 a2 x2 l2 k2 =>
+    t1 == t2 && n1 == n2 && a1 == a2 && x1 == x2 && l1 == l2 && Elem.beqL k1 k2
+def Elem.beqL : List Elem → List Elem → Bool
+  | [], [] => true
+  | a :: as, b :: bs => Elem.beq a b && Elem.beqL as bs
+  | _, _ => false
+end
+
+def Doc.beq (a b : Doc) : Bool := a.pre == b.pre && Elem.beq a.root b.root && a.post == b.post
+
 /-! ## Well-formedness -/
 
 def nameStartOk : Str → Bool
